@@ -495,8 +495,10 @@ impl SlabRouter {
             return self.put(key, value);
         }
 
-        // Log to WAL first (if configured)
-        if let Some(wal_mutex) = &self.wal {
+        // Log to WAL first (if configured). The log lock is held until the write has been
+        // applied in memory: concurrent durable writes then take effect in log order, so a
+        // restart recovers the state readers last saw.
+        let _wal_guard = if let Some(wal_mutex) = &self.wal {
             let mut wal = wal_mutex.lock();
 
             // Log embedding if present
@@ -515,7 +517,10 @@ impl SlabRouter {
                 data: value.clone(),
             })
             .map_err(|e| SlabRouterError::WalError(format!("Failed to log put: {e}")))?;
-        }
+            Some(wal)
+        } else {
+            None
+        };
 
         #[cfg(feature = "neumann_verif")]
         verif_durable_window(key);
@@ -537,8 +542,9 @@ impl SlabRouter {
             return self.delete(key);
         }
 
-        // Log to WAL first (if configured)
-        if let Some(wal_mutex) = &self.wal {
+        // Log to WAL first (if configured); the log lock is held until the delete has been
+        // applied in memory (see `put_durable`).
+        let _wal_guard = if let Some(wal_mutex) = &self.wal {
             let mut wal = wal_mutex.lock();
 
             // Log embedding delete if key is in entity index
@@ -560,7 +566,10 @@ impl SlabRouter {
                 key: key.to_string(),
             })
             .map_err(|e| SlabRouterError::WalError(format!("Failed to log delete: {e}")))?;
-        }
+            Some(wal)
+        } else {
+            None
+        };
 
         #[cfg(feature = "neumann_verif")]
         verif_durable_window(key);
